@@ -302,6 +302,14 @@ func (g *pgen) decorate(c *ConvSpec) {
 				extLines = append(extLines, "extend "+es.Text)
 			} else {
 				f := g.newFunc(c, m, "Ext", pp.S, pp.T, true)
+				if f.Pkg == 1 && g.r.Intn(8) == 0 {
+					// unexported: not usable from another output package. (goverter judges accessibility of an extend function
+					// against the output package known when the line is parsed; the harness never writes output:package before
+					// extend, so at that moment it is still unknown and an unexported function is refused even when the output
+					// finally lands in package p itself - the model follows the code, see DESIGN 11.4.)
+					f.Name = "ext" + f.Name[3:]
+					f.NoAccess = true
+				}
 				c.Extend = append(c.Extend, ExtSpec{Text: g.funcRef(f), Exact: f.Idx})
 				extLines = append(extLines, "extend "+g.funcRef(f))
 			}
